@@ -2,6 +2,7 @@ mod engine;
 mod filler;
 mod fixtures;
 mod props;
+include!(concat!(env!("OUT_DIR"), "/service_fillers.rs"));
 
 use engine::*;
 use std::os::unix::process::ExitStatusExt;
